@@ -43,6 +43,10 @@ pub enum Scenario {
     /// `n` tasks each await `timeout(timeout_ns, oneshot)`; a sibling task spawned in the same event answers, so the
     /// timeout's timer is armed and disarmed within one instant; the task then sleeps `sleep_ns`
     Answered { n: usize, timeout_ns: u64, sleep_ns: u64 },
+    /// idle-timer idiom: `n` tasks each hold a pinned `sleep(d)` and re-arm it (`reset(now + d)`) for every item of a
+    /// channel; a sibling task sends `rearms` items in the same event, after the sleep has been registered - the
+    /// sleep is reset several times to the deadline it is already registered for
+    Rearm { n: usize, d_ns: u64, rearms: usize },
 }
 
 #[derive(Debug, Clone, Serialize, Deserialize, PartialEq)]
@@ -78,6 +82,7 @@ impl Trigger {
             Scenario::Drain { m } => 1 + m / 128,
             Scenario::Captured { n } => *n,
             Scenario::Answered { n, .. } => 3 * n,
+            Scenario::Rearm { n, .. } => 3 * n,
         }
     }
 }
@@ -172,7 +177,7 @@ impl Stormy {
         let (local, mixed) = (t.local, t.mixed);
         let local_of = move |k: usize| if mixed { k % 2 == 1 } else { local };
         let armed = match &t.scenario {
-            Scenario::Burst { .. } | Scenario::Answered { .. } => Armed::None,
+            Scenario::Burst { .. } | Scenario::Answered { .. } | Scenario::Rearm { .. } => Armed::None,
             Scenario::Notify { n } => {
                 let notify = Arc::new(Notify::new());
                 for k in 0..*n {
@@ -310,9 +315,12 @@ impl Stormy {
                     let (yields, sleep_ns) = (*yields, *sleep_ns);
                     let h = spawn_any(t.local, async move {
                         log(m, ti, k, at);
-                        for _ in 0..yields {
+                        for y in 0..yields {
                             tokio::task::yield_now().await;
-                            log(m, ti, k, at);
+                            // (very long chains are logged sparsely)
+                            if yields <= 50_000 || y % 4096 == 0 || y + 1 == yields {
+                                log(m, ti, k, at);
+                            }
                         }
                         if sleep_ns > 0 {
                             sleep(Duration::from_nanos(sleep_ns)).await;
@@ -328,6 +336,35 @@ impl Stormy {
                     });
                     current().join(h);
                     self.spawned += 1;
+                }
+            }
+            Scenario::Rearm { n, d_ns, rearms } => {
+                for k in 0..*n {
+                    let (d_ns, rearms) = (*d_ns, *rearms);
+                    let (tx, mut rx) = mpsc::unbounded_channel::<()>();
+                    let h = spawn_any(t.local, async move {
+                        let mut idle = std::pin::pin!(sleep(Duration::from_nanos(d_ns)));
+                        let mut open = true;
+                        loop {
+                            tokio::select! {
+                                biased;
+                                item = rx.recv(), if open => match item {
+                                    Some(()) => idle.as_mut().reset(SimTime::now() + Duration::from_nanos(d_ns)),
+                                    None => open = false,
+                                },
+                                () = &mut idle => break,
+                            }
+                        }
+                        log(m, ti, k, at + d_ns);
+                        done();
+                    });
+                    current().join(h);
+                    self.spawned += 1;
+                    let _ = spawn_any(t.local, async move {
+                        for _ in 0..rearms {
+                            let _ = tx.send(());
+                        }
+                    });
                 }
             }
             Scenario::Answered { n, timeout_ns, sleep_ns } => {
@@ -444,7 +481,7 @@ fn expected_tasks(case: &Case) -> u64 {
         .iter()
         .flatten()
         .map(|t| match &t.scenario {
-            Scenario::Burst { n, .. } | Scenario::Notify { n } | Scenario::Captured { n } | Scenario::Answered { n, .. } => *n as u64,
+            Scenario::Burst { n, .. } | Scenario::Notify { n } | Scenario::Captured { n } | Scenario::Answered { n, .. } | Scenario::Rearm { n, .. } => *n as u64,
             Scenario::Chain { depth, .. } => *depth as u64,
             Scenario::Drain { .. } => 1,
         })
@@ -513,7 +550,12 @@ pub fn gen_trigger(rng: &mut Rng, time_ns: u64, local: bool, big: bool) -> Trigg
             s.min(cap)
         }
     };
-    let scenario = match rng.below(10) {
+    let marathon = !local && rng.chance(1, 300);
+    let scenario = match rng.below(11) {
+        10 => Scenario::Rearm { n: 1 + rng.usize_below(6), d_ns: *rng.pick(&[1_000_000u64, SEC, 6 * SEC]), rearms: 1 + rng.usize_below(3) },
+        // one task that stays runnable for several hundred thousand polls within one instant (takes the executor
+        // a noticeable amount of wall-clock time: nothing but virtual time may decide when it continues)
+        _ if marathon => Scenario::Burst { n: 1, yields: 300_000 + rng.usize_below(300_000), sleep_ns: if rng.chance(1, 2) { SEC } else { 0 } },
         8 => Scenario::Captured { n: size(rng) },
         9 => {
             // the disarmed timer's deadline lies before, at or after the deadline of the sleep that follows
@@ -575,7 +617,7 @@ pub fn gen_case(rng: &mut Rng, known_shape: bool) -> Case {
         let mut t = gen_trigger(rng, at, local, false);
         let completes_in_instant = match &t.scenario {
             Scenario::Burst { sleep_ns, .. } => *sleep_ns == 0,
-            Scenario::Captured { .. } | Scenario::Answered { .. } => false,
+            Scenario::Captured { .. } | Scenario::Answered { .. } | Scenario::Rearm { .. } => false,
             _ => true,
         };
         if completes_in_instant && t.time_ns > 0 {
@@ -629,12 +671,14 @@ pub fn cmd(args: &Args) -> Report {
         for t in case.modules.iter().flatten() {
             max_polls = max_polls.max(t.polls());
             let key = match &t.scenario {
+                Scenario::Burst { yields, .. } if *yields >= 300_000 => "scenarios_one_task_runnable_for_over_300000_polls",
                 Scenario::Burst { .. } => "scenarios_spawn_burst",
                 Scenario::Notify { .. } => "scenarios_notify_broadcast",
                 Scenario::Chain { .. } => "scenarios_wake_chain",
                 Scenario::Drain { .. } => "scenarios_channel_drain",
                 Scenario::Captured { .. } => "scenarios_message_consumed_by_processing_element",
                 Scenario::Answered { .. } => "scenarios_timeout_answered_within_the_instant_then_sleep",
+                Scenario::Rearm { .. } => "scenarios_sleep_rearmed_to_its_own_deadline",
             };
             rep.count(key, 1);
             if t.local {
